@@ -1,7 +1,13 @@
-"""C06 (issuance clause): a certificate issued from request parameters binds the requester's key."""
+"""C06: CSR acceptance (engine M over from_der) and issuance binding the requester's key (engine K)."""
+import mir_check
 from vcore import Query
 from shapes import *
 import c02_units as u
+
+
+def run_mir(tier, seed):
+    import csr
+    return mir_check.run_obligations([csr.ob_csr_accept], features="x509-parser")
 
 
 def spec(tier, seed):
@@ -17,10 +23,20 @@ def spec(tier, seed):
             seen.add(s.key())
             out.append(s)
     qs = [cert_query("c06", s, O_C02) for s in out] + u.from_oid_queries("c06", tier)
-    return {"queries": qs, "exhaustive": False,
-            "bounds": "CertificateSigningRequestParams built from (params, raw public key bytes, algorithm) as the parser would return them; the issued "
+    return {"queries": qs, "mir": run_mir, "exhaustive": False,
+            "bounds": "acceptance (engine M): the MIR of CertificateSigningRequestParams::from_der (dumped with the x509-parser feature) executed on an "
+                      "arbitrary parser result: <= 2 requested extensions of arbitrary kinds, SubjectAlternativeName extensions with 2 / 1 general names, "
+                      "arbitrary key-usage flag word, all seven extended-key-usage flags symbolic at once for one extension (two of them for two extensions); "
+                      "every Ok path must have passed the signature check, take the key bits and the key type from the request's SubjectPublicKeyInfo, "
+                      "refuse everything outside the whitelist and carry subject / names / usages over. Issuance (engine K): "
+                      "CertificateSigningRequestParams built from (params, raw public key bytes, algorithm) as the parser would return them; the issued "
                       "certificate's SPKI must be SEQ{registered AlgorithmIdentifier of the algorithm, BIT STRING of exactly the raw key bytes} and carry the "
                       "requested SAN/KU/EKU; from_oid total over OIDs of 0..8 symbolic arcs",
-            "outside": "the acceptance clause: signature verification of a parsed request, rejection of modified requests, the P-384/SHA-256 mislabelling "
-                       "quoted in the property - from_der is x509-parser's parser plus ring verification, not encodable here",
-            "assumptions": ["S1, S3", "hook csr::verif_hooks_csr::public_key_from_parts stands for the parser's output"]}
+            "outside": "the parser library and the signature verification themselves (x509-parser's DER parser, verify_signature and ring are the "
+                       "environment of from_der: each call returns an arbitrary value of its type; that verify_signature checks the embedded key over the "
+                       "certificationRequestInfo bytes is x509-parser's contract, not verified here); requests with more than 2 requested extensions; "
+                       "from_pem's PEM decoding; the converters from_name / try_from_general / from_u16 (uninterpreted here; the two leaf converters are C17's)",
+            "assumptions": ["S1, S3", "hook csr::verif_hooks_csr::public_key_from_parts stands for the parser's output",
+                            "engine M: calls into x509-parser / asn1-rs / std return arbitrary values of their types (contracts in mirsmt/csr.py); field order of "
+                            "the foreign structs is re-read from the vendored crate sources",
+                            "MIR is dumped by the pre-installed nightly from a scratch copy of /repo with --features x509-parser on every run"]}
